@@ -120,6 +120,20 @@ def special_pairs():
         ({'a': 'abc', 'n': 1}, {'a': _dc.Decimal('1.5'), 'n': 1}), (['x y'], [_dc.Decimal('2')]), ({'a': float('inf')}, {'a': 5}), ([float('-inf'), 1], [7, 1]),
         ({'a': 10 ** 400}, {'a': 1.5}), ({'a': 3}, {'a': _uuid.UUID(int=3)}), ([5, 'k'], [_uuid.UUID(int=5), 'k']), ({'a': None}, {'a': _dc.Decimal('0')}), ({'a': [1]}, {'a': _dc.Decimal('1')}),
     ]
+    # the second value is built from pieces of the first without copying: it holds, below the place of a container of t1 (or of t1 itself), that very
+    # container -- each value is a tree on its own, the two share objects
+    def _shared():
+        a = [1, 2]; t1 = {'a': a}; yield t1, {'a': [1, a]}
+        t1 = {'a': 1}; yield t1, {'a': 1, 'b': t1}
+        t1 = [[1], [2]]; yield t1, [[1], [2, t1[0]]]
+        t1 = {'x': {'y': [1]}}; yield t1, {'x': {'y': [1], 'z': t1['x']}}
+        t1 = [1, [2, 3]]; yield t1, [1, [2, t1]]
+        t1 = {'k': [0, {'m': 1}]}; yield t1, {'k': [0, {'m': t1['k']}]}
+        t1 = ([1, 2], 'z'); yield t1, ([1, t1[0], 2], 'z')
+    out += list(_shared())
+    # several items of one tuple below the root change in one report kind
+    out += [({'a': (1, 2, 3)}, {'a': (1, 5, 6)}), ([0, (1, 2, 3)], [0, (7, 2, 9)]), ({'a': {'b': (1, 'x', 2.5)}}, {'a': {'b': ('1', 'x', 2)}}), ([[('a', 'b', 'c')]], [[('A', 'B', 'c')]]),
+            ({'a': (1, 2, 3), 'b': (4, 5)}, {'a': (9, 2, 8), 'b': (5, 4)})]
     try:
         import numpy as np
         out += [({'a': np.array([0.5, -7.25, 2.5]), 'b': np.array([1, 2, 3]), 'l': [1, 2]}, {'a': np.array([0.5, -7.25, 2.5]), 'b': np.array([1, 2, 3]), 'l': [1, 2, 3]}),
@@ -296,7 +310,7 @@ def run(ctx, impl_only=False):
         for a, b in zip(vals, vals[1:]):
             ctx.evaluations += 1
             try:
-                if not in_domain(a, b)[0]:
+                if not in_domain(a, b)[0] or set_member_alias(a, b):          # F45: set members that are == but of different types
                     okc = False; break
                 cur = cur + Delta(DeepDiff(a, b))
             except Exception as e:
